@@ -1324,10 +1324,7 @@ Proof.
           destruct (is_operand a); [|cbn [ops_ok]]; eapply IHe; [exact Hn|exact Ha|exact Hn|exact Ha]
         end. }
       assert (Ho1 : ops_ok o1 = true).
-      { dec Hf; injection Hf as <- _; [|exact Ho2].
-        cbn [ops_ok]. rewrite Ho2. cbn [andb].
-        match goal with Ha : pgo ns f EExpr (Some o2) _ = Ok _ |- _ =>
-          eapply IHe; [|exact Ha]; exact Ho2 end. }
+      { eapply pred_loop_ops; [exact IHe|exact Ho2|exact Hf]. }
       destruct (typ s1); try (injection Hx as <- _; exact Ho1).
       * inv_one Hx sx Hsx. eapply relpath_loop_ops; [exact IHs| |exact Hx]. exact Ho1.
       * inv_one Hx sx Hsx. eapply relpath_loop_ops; [exact IHs| |exact Hx]. exact Ho1.
